@@ -491,14 +491,51 @@ def _work(span):
     part = _G["hs"][a:b]
     ds, nlines, done, crash, ios = C.run_batch(_G["harness"], _G["driver"], part, reference, C.default_eq, 900)
     keys = set()
+    hits = {}
+
+    def hit(k, n=1):
+        hits[k] = hits.get(k, 0) + n
+
     for h, o in zip(part, ios):
         k = nontrivial(h, o)
         if k is not None:
             keys.add(hashlib.blake2b((",".join(sorted(k[0])) + "|" + k[1]).encode(), digest_size=8).digest())
+        # branch counters measured on the implementation's output
+        for line, out in zip(h, o):
+            op = line.split(" ", 1)[0]
+            if out == "bad-op":
+                hit("rejected op (precondition)")
+                continue
+            parts = out.split(" | ")
+            hd = parts[0].split(" ")
+            if len(hd) < 3 or len(parts) < 2:
+                continue
+            first = parts[1].split(" ")
+            if hd[1] != "n=0":
+                hit("List/PoolList block allocated" if op[0] in "lp" else "Array storage (re)allocated")
+            elif op in ("aappend", "aappendn", "aappenda", "aresize", "areserve"):
+                hit("Array grows/reserves without reallocation")
+            if op in ("linsert", "linsertl") and hd[0] not in ("r=0", "r=-") and len(first) > 1 and hd[0] != "r=" + str(int(first[1]) - 1):
+                hit("List insert strictly inside")
+            if op in ("lremove", "premove", "aremove") and hd[0] != "r=0" and len(first) > 1 and hd[0] != "r=" + first[1]:
+                hit("remove strictly inside")
+            if op in ("lremoveBack", "premoveBack", "aremoveBack") or (op in ("lremove", "premove", "aremove") and len(first) > 1 and hd[0] == "r=" + first[1]):
+                hit("remove of the last element returns end()")
+            if op == "lsort" and len(first) > 1:
+                n = int(first[1])
+                hit("sort of <2 elements (early return)" if n < 2 else "sort of 2..8 elements" if n <= 8 else "sort of 9..32 elements" if n <= 32 else "sort of >32 elements")
+            if op in ("lfind", "afind") and len(first) > 1:
+                hit("find: not found (end())" if hd[0] == "r=" + first[1] else "find: found")
+            if op == "lremovev":
+                hit("remove(value)")
+            if op in ("lswap", "pswap", "aswap"):
+                hit("swap")
+            if op in ("lcopy", "lassign", "acopy", "aassign"):
+                hit("copy/assign")
     if crash and not ds:
         ds.append(C.Diff(part[-1] if part else [], max(0, len(part[-1]) - 1) if part else 0,
                          "impl-exit", f"exit code {crash[0]}", None, None, crash[1]))
-    return ds, nlines, done, keys
+    return ds, nlines, done, keys, hits
 
 
 def differential_mp(ctx, harness, driver, histories):
@@ -510,7 +547,10 @@ def differential_mp(ctx, harness, driver, histories):
     spans = [(i, min(len(histories), i + chunk)) for i in range(0, len(histories), chunk)]
     diffs, keys = [], set()
     with multiprocessing.get_context("fork").Pool(C.NCPU) as pool:
-        for ds, nlines, done, ks in pool.imap_unordered(_work, spans):
+        for ds, nlines, done, ks, hits in pool.imap_unordered(_work, spans):
+            bh = ctx.cov.setdefault("branch_hits", {})
+            for k, n in hits.items():
+                bh[k] = bh.get(k, 0) + n
             ctx.cov["evaluations"] += nlines
             ctx.cov["traces_validated_against_impl"] += done
             diffs += ds
@@ -574,6 +614,22 @@ def check(ctx):
         diffs = differential_mp(ctx, harness, C.driver_path(DRIVER), hs)
         ctx.log(f"{len(hs)} histories, {ctx.cov['evaluations']} op lines, {len(diffs)} disagreement(s)")
         C.report_diffs(ctx, diffs, harness, C.driver_path(DRIVER), reference, C.default_eq, "seq-ops")
+        # second stream: the same headers compiled the way a release build does (-O2, no sanitizer): placement-new over
+        # recycled items, inlined relinking and the quicksort must behave identically under optimisation
+        h2 = C.build_harness(ctx, "seq_o2", ["seq.cpp"], extra_flags=(["-DSEQ_POOL_FRONT"] if pf else []) + ["-O2"], sanitize=False)
+        if h2 is not None:
+            try:
+                sub = [h for h in hs if h and h[-1] == "dump"]
+                sub += ctx.rng.sample(hs, min(len(hs), 20000 if ctx.tier == "quick" else 300000))
+                d2 = differential_mp(ctx, h2, C.driver_path(DRIVER), sub)
+                ctx.log(f"-O2 stream: {len(sub)} histories, {len(d2)} disagreement(s)")
+                ctx.cov["streams"] = {"seq-ops (ASan+UBSan, -O1)": len(hs), "seq-ops-O2 (no sanitizer)": len(sub)}
+                C.report_diffs(ctx, d2, h2, C.driver_path(DRIVER), reference, C.default_eq, "seq-ops-O2")
+            finally:
+                try:
+                    h2.unlink()
+                except OSError:
+                    pass
     finally:
         try:
             harness.unlink()
